@@ -77,6 +77,12 @@ def build_and_validate(n, pairs, okind, dflag, share, flagvals=None):
                 lk = M.Link(1, 2, 1.0, 180, 30, 100, 1.8, name=f"L{u}{v}")
             links[(u, v)] = lk
             net.add_link(nodes[u], lk, nodes[v])
+    # validation is also called between the construction phases (results ignored): a lookup cached by an
+    # earlier validation must not make a later verdict stale
+    try:
+        net.is_valid(raises=False)
+    except Exception:  # noqa  (reported by the final call if it persists)
+        pass
     origins = {}
     for i in range(n):
         if okind[i]:
@@ -87,6 +93,10 @@ def build_and_validate(n, pairs, okind, dflag, share, flagvals=None):
                     (M.MeteredOnRamp(2000, name=f"O{i}") if (i % 2 == 0) else M.SimplifiedMeteredOnRamp(2000, name=f"O{i}"))
             origins[i] = o
             net.add_origin(o, nodes[i])
+    try:
+        net.is_valid(raises=False)
+    except Exception:  # noqa
+        pass
     dests = {}
     for i in range(n):
         if dflag[i]:
